@@ -330,17 +330,114 @@ def check_ctor_forwarding(prog, rep):
                     rep.ok(R, f.qualname, "%d keywords handed to the parent constructor under their own names" % len(kws))
 
 
+def check_cross_space(prog, rep):
+    """R5-space: a protocol whose decisions are crosses offers the optimiser one decision per row of the cross map the problem itself builds: ndecn = len(xmap) with
+    xmap = <Problem>._calc_xmap(ntaxa, nparent, unique_parents).  A closed form is accepted only if it is the count of that generator: C(n, k) index tuples without
+    repetition (triudix), C(n + k - 1, k) with repetition (triuix)."""
+    from sa.vn import VN, VNUnknown
+    R = "R5-space"
+    for m in prog.modules.values():
+        if not m.name.startswith(SEL) or m.name.startswith(SEL + "prob") or m.name.startswith(SEL + "cfg"):
+            continue
+        for K in m.classes.values():
+            f = K.methods.get("problem")
+            if f is None:
+                continue
+            defs = {}
+            for st in walk_no_nested(f.node):
+                if isinstance(st, ast.Assign) and len(st.targets) == 1 and isinstance(st.targets[0], ast.Name):
+                    defs.setdefault(st.targets[0].id, []).append(st.value)
+            nd = [k.value for c in walk_no_nested(f.node) if isinstance(c, ast.Call) for k in c.keywords if k.arg == "ndecn"]
+            uses_xmap = any(isinstance(c, ast.Call) and isinstance(c.func, ast.Attribute) and c.func.attr == "_calc_xmap" for c in walk_no_nested(f.node))
+            combs = [c for c in walk_no_nested(f.node) if isinstance(c, ast.Call) and (prog.dotted(f.module, c.func) or dump(c.func)) in ("math.comb", "comb", "scipy.special.comb")]
+            if not nd or not (uses_xmap or combs):
+                continue
+            rep.saw(f)
+            v = nd[0]
+            if isinstance(v, ast.Name) and len(defs.get(v.id, [])) == 1:
+                v = defs[v.id][0]
+            if dump(v) in ("self.ncross", "self._ncross"):
+                # subset encoding: the decisions are ncross picks out of the candidate set, and the candidate set is one entry per row of the cross map
+                ds = [k.value for c in walk_no_nested(f.node) if isinstance(c, ast.Call) for k in c.keywords if k.arg == "decn_space"]
+                v = ds[0] if ds else v
+                if isinstance(v, ast.Name) and len(defs.get(v.id, [])) == 1:
+                    v = defs[v.id][0]
+                if isinstance(v, ast.Call) and (prog.dotted(f.module, v.func) or "") == "numpy.arange" and len(v.args) == 1:
+                    v = v.args[0]
+                    if isinstance(v, ast.Name) and len(defs.get(v.id, [])) == 1:
+                        v = defs[v.id][0]
+            if isinstance(v, ast.Call) and dump(v.func) == "len" and len(v.args) == 1 and isinstance(v.args[0], ast.Name):
+                xd = defs.get(v.args[0].id, [None])[0]
+                if isinstance(xd, ast.Call) and isinstance(xd.func, ast.Attribute) and xd.func.attr == "_calc_xmap":
+                    rep.ok(R, f.qualname, "ndecn = len(%s) with %s = %s" % (v.args[0].id, v.args[0].id, dump(xd.func)))
+                    continue
+            if combs and len(combs) == 1 and any(x is combs[0] for x in ast.walk(v)) or (isinstance(v, ast.Call) and v in combs):
+                c = combs[0]
+                if len(c.args) != 2:
+                    rep.unrec(R, f.qualname, "count %s not modelled" % dump(c)[:50])
+                    continue
+                verdicts = []
+                try:
+                    for uniq, want in ((True, "N"), (False, "N + K - 1")):
+                        env = {}
+                        vn = VN(prog, f, flags={})
+                        # evaluate the first argument with the flag unique_parents decided
+                        import copy as _copy
+
+                        class Dec(ast.NodeTransformer):
+                            def visit_IfExp(self_, n):
+                                self_.generic_visit(n)
+                                t = dump(n.test)
+                                if t in ("self.unique_parents", "unique_parents", "self._unique_parents"):
+                                    return n.body if uniq else n.orelse
+                                if t in ("not self.unique_parents", "not unique_parents"):
+                                    return n.orelse if uniq else n.body
+                                return n
+                        a0 = c.args[0]
+                        if isinstance(a0, ast.Name) and len(defs.get(a0.id, [])) == 1:
+                            a0 = defs[a0.id][0]
+                        stmts = []
+                        for nm_, vs_ in defs.items():
+                            if len(vs_) == 1 and isinstance(vs_[0], (ast.IfExp, ast.BinOp, ast.Constant, ast.Attribute, ast.Name)):
+                                stmts.append(ast.Assign(targets=[ast.Name(id=nm_, ctx=ast.Store())], value=Dec().visit(_copy.deepcopy(vs_[0]))))
+                        vn2 = VN(prog, f)
+                        for st_ in stmts:
+                            try:
+                                vn2.stmt(ast.fix_missing_locations(st_))
+                            except VNUnknown:
+                                pass
+                        got = vn2.expr(Dec().visit(_copy.deepcopy(a0)))
+                        kk = vn2.expr(c.args[1])
+                        nn = None
+                        # N is whatever the first argument is for unique parents
+                        verdicts.append((uniq, got, kk))
+                    (u1, g1, k1), (u2, g2, k2) = verdicts
+                    # with repetition the generator yields C(N + K - 1, K): the first argument must grow by K - 1 relative to the unique case
+                    from sa.vn import Poly
+                    if g2 == g1 + k1 - Poly.const(1):
+                        rep.ok(R, f.qualname, "ndecn = C(n, k) for unique parents and C(n + k - 1, k) otherwise: the counts of triudix / triuix")
+                    else:
+                        rep.violate(R, f.qualname, "the number of decisions is %s: for crosses with repeated parents the cross map has C(n + k - 1, k) rows, which this equals only "
+                                    "for k = 2 - with three or more parents per cross the last rows of the cross map are never offered to the optimiser" % dump(c)[:60],
+                                    where(f, c), "len(xmap) of the problem's own cross map", dump(c)[:60])
+                except VNUnknown as e:
+                    rep.unrec(R, f.qualname, "count %s not evaluated: %s" % (dump(c)[:40], e))
+                continue
+            rep.unrec(R, f.qualname, "ndecn = %s is not the length of the problem's cross map" % dump(v)[:50])
+
+
 def run(prog, rep, tier):
     rep.explanation = ("Wiring rules: the decision that reaches the cross configuration is the solver's own (argmax of the declared weighted preference transformation for "
                        "fronts), all design parameters and the population are forwarded by name, the sampling pipeline of the eight configuration classes is the required "
                        "sequence with self.rng at every step, and the cross-map index generators start each level correctly. The exchange search is checked by C17-R1.")
     rep.not_decided = ["that an exact optimiser picks the best candidates; permutation equivariance; balance within one share (runtime / C17's undecided clauses)"]
-    rep.only_rules = {"R1-select", "R2-pipeline", "R3-xmap", "R1-outcross", "R4-ctor", "R2-tiles"}
-    for r, n in (("R1-select", 20), ("R2-pipeline", 8), ("R3-xmap", 3), ("R1-outcross", 2), ("R4-ctor", 50)):
+    rep.only_rules = {"R1-select", "R2-pipeline", "R3-xmap", "R1-outcross", "R4-ctor", "R2-tiles", "R5-space"}
+    for r, n in (("R1-select", 20), ("R2-pipeline", 8), ("R3-xmap", 3), ("R1-outcross", 2), ("R4-ctor", 50), ("R5-space", 10)):
         rep.floor(r, n)
     check_select(prog, rep)
     check_pipeline(prog, rep)
     check_xmap(prog, rep)
     check_ctor_forwarding(prog, rep)
+    check_cross_space(prog, rep)
     c17.check_outcross(prog, rep)
     c17.check_tiled(prog, rep)
